@@ -33,6 +33,10 @@ def main():
     for pid in sorted(INFO):
         text, note, ref = INFO[pid]
         have = any(os.path.exists(os.path.join(core.COQ, "Props", f)) for f, _ in core.PROPS.get(pid, []))
+        if have:
+            th, problems = core.proof_status(pid)
+            have = bool(th) and not problems
+            if problems: print(pid, "not claimed:", problems[:2])
         if not have:
             na.append({"property_id": pid, "reason": "theorem file for this property is not in the tree yet (proof in progress); the correspondence/oracle check exists (./check %s) but is not claimed without a theorem" % pid}); continue
         checks.append({"property_id": pid, "quick_cmd": "./check %s quick" % pid, "thorough_cmd": "./check %s thorough" % pid,
